@@ -113,6 +113,14 @@ def scenarios(tier):
                    actors=[dict(role='faulty', ops=[('set', 'k9', 2 ** 70), ('contains', 'k1')], cached=False, linger=True), W(('set', 'k3', 'new3'))], bound=1))
     sc.append(dict(name='idle after failed update || set k3', backend=b, prior=PH,
                    actors=[dict(role='faulty', ops=[('update', (('k8', 'v8'), ('k9', 2 ** 70)))], cached=False, linger=True), W(('set', 'k3', 'new3'))], bound=1))
+    # a process that merely opens a table with a past (superseded rows) next to a writer of another key
+    sc.append(dict(name='table with superseded rows: set k3 || open direct', backend=b, prior=PH, actors=[W(('set', 'k3', 'new3')), O(False)]))
+    sc.append(dict(name='table with superseded rows: set k3 || open cached', backend=b, prior=PH, actors=[W(('set', 'k3', 'new3')), O(True)]))
+    if tier == 'thorough':
+        sc.append(dict(name='table with superseded rows: del k2 || open direct', backend=b, prior=PH, actors=[W(('del', 'k2')), O(False)]))
+        sc.append(dict(name='table with superseded rows: set k3 || items', backend=b, prior=PH, actors=[W(('set', 'k3', 'new3')), R(('items',))]))
+        for b2 in dirs + files:
+            sc.append(dict(name='store with a past: set k3 || open cached', backend=b2, prior=PH + [('del', 'k2')], actors=[W(('set', 'k3', 'new3')), O(True)]))
     if tier == 'thorough':
         sc.append(dict(name='update k2,k3 || update k4,k5', backend=b, prior=P1,
                        actors=[W(('update', (('k2', 'new2'), ('k3', 'new3')))), W(('update', (('k4', 'new4'), ('k5', 'new5'))))]))
